@@ -334,7 +334,8 @@ func (e *Engine) typeInv(T types.Type, x Term) Term {
 		}
 		if t.Info()&types.IsString != 0 {
 			// lengths are bounded by the address space (2^56 is generous on every supported platform)
-			return And(Ge(StrLen(x), IntLit(0)), Ge(StrOff(x), IntLit(0)), Le(StrLen(x), Term{"72057594037927936", SInt}))
+			// (no upper bound on string lengths: the 2^56 constant used for slices makes z3 give up on quantified string goals)
+			return And(Ge(StrLen(x), IntLit(0)), Ge(StrOff(x), IntLit(0)), Le(StrLen(x), Term{"9223372036854775807", SInt}))
 		}
 		return TTrue
 	case *types.Pointer, *types.Map, *types.Chan:
